@@ -147,6 +147,16 @@ class OracleRO:
     def sumpexp(self, e, s):
         return OAtom('sumpexp', e, params=parr(s))
 
+    def sumexp_2step(self, e2d, Y=None):
+        # exp(E).sum(axis=1).sum()  /  (exp(E) + Y).sum(axis=-1).sum(): the sum over all entries
+        out = OAtom('sumexp', parr(e2d).reshape(-1))
+        return out if Y is None else out + float(np.array(Y, dtype=float).sum())
+
+    def sumexp_nested(self, e, Y):
+        # (exp(e).sum() + Y).sum(): the scalar sum is repeated for every entry of Y
+        Y = np.array(Y, dtype=float)
+        return OAtom('sumexp', parr(e).reshape(-1)) * float(Y.size) + float(Y.sum())
+
     def sumexp_bcast(self, e, Y):
         # (exp(e) + Y).sum(), e broadcast to the shape of Y: sum_ij exp(e_j) + sum(Y)
         Y = np.array(Y, dtype=float)
@@ -355,6 +365,15 @@ class RealRO:
 
     def sumpexp(self, e, s):
         return self.rso.pexp(e, s).sum()
+
+    def sumexp_2step(self, e2d, Y=None):
+        h = self.rso.exp(e2d)
+        if Y is not None:
+            return (h + np.array(Y, dtype=float)).sum(axis=-1).sum()
+        return h.sum(axis=1).sum()
+
+    def sumexp_nested(self, e, Y):
+        return (self.rso.exp(e).sum() + np.array(Y, dtype=float)).sum()
 
     def sumexp_bcast(self, e, Y):
         return (self.rso.exp(e) + np.array(Y, dtype=float)).sum()
